@@ -293,3 +293,76 @@ func EscapeCells() []Cell {
 	}
 	return cells
 }
+
+// ---- format-on-save inputs
+
+// SaveCells are whole files whose line count changes (or not) when formatted:
+// blank lines after the package clause, between nodes and at the end, tags
+// spelled over several lines that join, children that move to lines of their
+// own, unused import groups, missing final newline.
+func SaveCells() []Cell {
+	var cells []Cell
+	add := func(name, src string) {
+		cells = append(cells, Cell{Name: "cell=save-" + name, Src: src, NoBase: true})
+	}
+	add("formatted", "package main\n\ntempl t(s string) {\n\t<div>{ s }</div>\n}\n")
+	add("formatted-two", "package main\n\ntempl t(s string) {\n\t<div>{ s }</div>\n}\n\ntempl u() {\n\t<p>x</p>\n}\n")
+	add("blank-after-package", "package main\n\n\n\n\ntempl t(s string) {\n\t<div>{ s }</div>\n}\n")
+	add("blank-between-nodes", "package main\n\ntempl t(s string) {\n\n\t<div>{ s }</div>\n\n\t<p>x</p>\n\n}\n")
+	add("blank-trailing", "package main\n\ntempl t(s string) {\n\t<div>{ s }</div>\n}\n\n\n\n")
+	add("blank-everywhere", "package main\n\n\n\ntempl t(s string) {\n\n\t<div\n\t>\n\n\t\t<p>{ s }</p>\n\n\t\t<p>x</p>\n\n\t</div>\n\n}\n\n\n")
+	add("blank-between-templates", "package main\n\ntempl t() {\n\t<p>x</p>\n}\n\n\n\n\ntempl u() {\n\t<p>y</p>\n}\n")
+	add("no-final-newline", "package main\n\ntempl t(s string) {\n\t<div>{ s }</div>\n}")
+	add("no-final-newline-shrinks", "package main\n\n\n\ntempl t(s string) {\n\n\t<div>{ s }</div>\n}")
+	add("one-line-templ", "package main\n\ntempl t(s string) {<div>{ s }</div>}")
+	add("tag-joins", "package main\n\ntempl t(s string) {\n\t<div\n\t>\n\t\t{ s }\n\t</div\n\t>\n}\n")
+	add("tag-attrs-join-void", "package main\n\ntempl t(s string) {\n\t<input\n\t/>\n}\n")
+	add("children-move", "package main\n\ntempl t(s string) {\n\t<div><p>{ s }\n\t</p></div>\n}\n")
+	add("children-move-much", "package main\n\ntempl t(s string) {\n\t<ul><li>a</li><li>b</li><li>c\n</li></ul>\n}\n")
+	add("if-body-blank", "package main\n\ntempl t(b bool) {\n\tif b {\n\n\t\t<p>x</p>\n\n\t}\n}\n")
+	add("comment-blank", "package main\n\ntempl t() {\n\t// c\n\n\n\t<p>x</p>\n}\n")
+	add("go-code-blank", "package main\n\n\nvar x = 1\n\n\n\nfunc f() {\n\n}\n\n\ntempl t() {\n\t<p>x</p>\n}\n")
+	add("go-code-grows", "package main\n\nfunc f() { if true { return } }\n\ntempl t() {\n\t<p>x</p>\n}\n")
+	add("unused-import-group", "package main\n\nimport (\n\t\"fmt\"\n\t\"os\"\n)\n\ntempl t() {\n\t<p>x</p>\n}\n")
+	add("unused-import-group-of-one", "package main\n\nimport (\n\t\"os\"\n)\n\ntempl t() {\n\t<p>x</p>\n}\n")
+	add("unused-import-decls", "package main\n\nimport \"fmt\"\nimport \"os\"\n\ntempl t(s string) {\n\t<p>{ fmt.Sprint(s) }</p>\n}\n")
+	add("missing-imports-grow", "package main\n\ntempl t(s string) {\n\t<p>{ fmt.Sprint(s) }{ strings.ToUpper(s) }</p>\n}\n")
+	add("import-group-to-single", "package main\n\nimport (\n\t\"fmt\"\n\t\"os\"\n)\n\ntempl t(s string) {\n\t<p>{ fmt.Sprint(s) }</p>\n}\n")
+	add("css-oneline-grows", "package main\n\ncss cl() { color: red; background: blue; }\n\ntempl t() {\n\t<p>x</p>\n}\n")
+	add("script-blank", "package main\n\nscript sc() {\n\n\talert(1);\n\n}\n\n\n\ntempl t() {\n\t<p>x</p>\n}\n")
+	add("header-blank", "// header\n\n\n\npackage main\n\n\ntempl t() {\n\t<p>x</p>\n}\n")
+	add("crlf", "package main\r\n\r\n\r\ntempl t() {\r\n\r\n\t<p>x</p>\r\n}\r\n")
+	add("utf16-astral-last-line", "package main\n\ntempl t() {\n\t<p>😀😀 é</p>\n}\n// 😀😀😀 trailing comment without newline")
+	add("long-last-line", "package main\n\ntempl t() {\n\t<p>x</p>\n}\n\n\n// "+strings.Repeat("tail ", 30))
+	add("only-package", "package main\n")
+	add("only-package-blank", "package main\n\n\n\n")
+	add("many-lines-to-few", "package main\n\ntempl t() {\n\t<div\n\n\n\n\n\n\n\n\n\n\t></div>\n\n\n\n\n\n\n\n\n}\n\n\n\n\n\n")
+	return cells
+}
+
+// SaveVariant respells a whole file so that formatting changes its line
+// count: 0 as it is, 1 extra blank lines (after the package clause, between
+// lines, at the end), 2 no final newline, 3 the first tag spelled over two
+// lines, 4 trailing blank lines only.
+func SaveVariant(src string, variant int) string {
+	switch variant {
+	case 1:
+		src = strings.Replace(src, "package main\n\n", "package main\n\n\n\n", 1)
+		i := strings.Index(src, "{\n")
+		if i >= 0 {
+			head, body := src[:i+2], src[i+2:]
+			src = head + "\n" + strings.ReplaceAll(body, ">\n", ">\n\n")
+		}
+		return src + "\n\n"
+	case 2:
+		return strings.TrimRight(src, "\n")
+	case 3:
+		if i := strings.Index(src, ">"); i > 0 && src[i-1] != '-' && src[i-1] != '/' && !strings.Contains(src[:i], "!") {
+			return src[:i] + "\n" + src[i:]
+		}
+		return src
+	case 4:
+		return src + "\n\n\n"
+	}
+	return src
+}
